@@ -22,11 +22,14 @@ def conditions(tier, seed):
         out.append(Cond('query_len0' + tag, 'c09_query.py', dict(ni=ni, len=0, first=0, plfree=True), timeout=t,
                         bound='no operator', symbolic=['x*, y*, b*, pv'], case_split=['dead', 'pl']))
         for f in range(NOPS):
-            out.append(Cond('query_first%d%s' % (f, tag), 'c09_query.py', dict(ni=ni, len=ln, first=f), timeout=t,
+            heavy = tier != 'quick' and f in (4, 5, 6, 7)     # the sorting operators first: split the cell four ways
+            for part in (range(4) if heavy else [None]):
+              out.append(Cond('query_first%d%s%s' % (f, tag, '' if part is None else '_p%d' % part), 'c09_query.py',
+                            dict(ni=ni, len=ln, first=f) if part is None else dict(ni=ni, len=ln, first=f, part=part, nparts=4), timeout=t,
                             bound='%d instances, operator sequences of length 1..%d starting with operator %d' % (ni, ln, f),
                             symbolic=['x0..x3', 'y0..y3', 'b0..b3', 'k1', 'k2', 'thr', 'pv (all unbounded)'],
                             case_split=['si (operator sequence)', 'dead in {none, second instance}'],
-                            twin=(f in (0, 4))))
+                            twin=(f in (0, 4) and part in (None, 0))))
     templates = ['a_B', 'b_A', 'setA_B', 'genA_B', 'listB_A', 'a_B_succ', 'b_prec_prec', 'b_succ', 'a_B_succ_A_B',
                  'a_D', 'd_A', 'a_L_D', 'l_A', 'setA_D_A', 'subtype', 'hetero_XY_A', 'hetero_YX_A', 'filter_gt', 'filter_eq', 'filter_order',
                  'none', 'invalid']
